@@ -28,7 +28,7 @@ RULE = ('Inputs: (a) Hypothesis Unicode text and lexer-biased ASCII text; (b) to
         'CompilerError, every span in its context lies inside the source, get_info() renders; on success the output must '
         'assemble on the strict assembler. CLI (python -m hidc, subprocess) on the first occurrences of every distinct '
         'CodeGenError diagnostic per shard and a 2% sample of everything: failure => exit status != 0, a diagnostic on stderr, no output file and a pre-existing file left '
-        'untouched; success => exit 0 and the file equals the in-process output. Non-trivial: inputs that get past the '
+        'untouched; success => exit 0 and the file equals the in-process output; a third of the runs omit -o (the tool then writes <input>.s, which must not exist after a failure). Non-trivial: inputs that get past the '
         'parser (typechecker or code generator reached). Distinct by hash of (text, options).')
 ASSUMPTIONS = ['"input text" = text decodable as UTF-8 without surrogates; nesting depth bounded by 30',
                'strict assembler svm/asm.py defines "the Sphinx assembler accepts it"']
@@ -108,17 +108,20 @@ def nesting(src):
     return max(m, best)
 
 
-def run_cli(src, bits, S, unchecked, lint, expect_lines):
-    """-> None or message."""
+def run_cli(src, bits, S, unchecked, lint, expect_lines, default_out=False):
+    """-> None or message.  default_out: no -o option, the tool writes <input>.s (and says so on stdout)."""
     with tempfile.TemporaryDirectory(prefix='c10cli') as d:
         inp = os.path.join(d, 'prog.hid')
-        outp = os.path.join(d, 'out.s')
+        outp = inp + '.s' if default_out else os.path.join(d, 'out.s')
         with open(inp, 'w', encoding='utf-8', newline='\n') as f:
             f.write(src)
         marker = b'PRE-EXISTING CONTENT\n'
-        with open(outp, 'wb') as f:
-            f.write(marker)
-        cmd = [sys.executable, '-m', 'hidc', inp, '-o', outp, '-m', str(bits), '-s', str(S)]
+        if not default_out:
+            with open(outp, 'wb') as f:
+                f.write(marker)
+        cmd = [sys.executable, '-m', 'hidc', inp, '-m', str(bits), '-s', str(S)]
+        if not default_out:
+            cmd += ['-o', outp]
         if unchecked:
             cmd.append('--unchecked')
         if lint:
@@ -127,6 +130,9 @@ def run_cli(src, bits, S, unchecked, lint, expect_lines):
         r = subprocess.run(cmd, cwd=H.HIDC_REPO, capture_output=True, env=env, timeout=120)
         exists = os.path.exists(outp)
         content = open(outp, 'rb').read() if exists else None
+        others = sorted(set(os.listdir(d)) - {'prog.hid', os.path.basename(outp)})
+        if others:
+            return 'CLI left unexpected files next to the input: %r' % others
         if expect_lines is None:
             if r.returncode == 0:
                 return 'CLI exits 0 although compilation fails in process'
@@ -134,7 +140,10 @@ def run_cli(src, bits, S, unchecked, lint, expect_lines):
                 return 'CLI fails (exit %d) without any diagnostic on stderr' % r.returncode
             if b'Traceback (most recent call last)' in r.stderr:
                 return 'CLI dies with a traceback: %r' % r.stderr[-300:]
-            if content != marker:
+            if default_out:
+                if exists:
+                    return 'CLI failed (exit %d) but left an output file %s (%d bytes)' % (r.returncode, os.path.basename(outp), len(content))
+            elif content != marker:
                 return 'CLI failed (exit %d) but the output file was %s (%r...)' % (
                     r.returncode, 'removed' if content is None else 'modified/truncated', (content or b'')[:40])
             return None
@@ -142,7 +151,8 @@ def run_cli(src, bits, S, unchecked, lint, expect_lines):
             return 'CLI exits %d although compilation succeeds in process; stderr %r' % (r.returncode, r.stderr[-300:])
         want = b''.join(l + b'\n' for l in expect_lines)
         if content != want:
-            return 'CLI output file differs from the in-process output (%d vs %d bytes)' % (len(content or b''), len(want))
+            return 'CLI output file %s differs from the in-process output (%s vs %d bytes)' % (
+                os.path.basename(outp), 'missing' if content is None else '%d' % len(content), len(want))
         return None
 
 
@@ -199,7 +209,7 @@ def check_input(stats, src, bits, S, unchecked, lint, cli_roll, allow_cli=True):
         stats.cls('cli_runs')
         stats.cls('cli_for_' + stage)
         try:
-            m = run_cli(src, bits, S, unchecked, lint, expect_lines)
+            m = run_cli(src, bits, S, unchecked, lint, expect_lines, default_out=(roll % 3 == 0))
         except (UnicodeEncodeError, subprocess.TimeoutExpired):
             raise Discard('cli run not possible')
         if m:
@@ -306,6 +316,15 @@ for _src, _n in (('"abc"', 3), ('""', 0), ('cs', 2), ('gs', 4), ('[1, 2, 3]', 3)
         ILL_FORMED.append(('const string gs = "wxyz"; const int[] gt = [7, 8];',
                            'const string cs = "ab"; const byte[] lt = [1, 2, 3]; write(%s[%s] is int); write(%s[(%s)] is bool);' % (
                                _src, _i if _i >= 0 else '(%d)' % _i, _src, _i)))
+# every subset of the output routines used alone (a library that is emitted selectively must stay closed under its own jumps)
+_USES = {'int': 'write(n); writeln(n + 1);', 'bool': 'write(n > 1);', 'string': 'write("s"); writeln(gs);', 'cbytes': 'write(gt2); write("q" is byte[]);',
+         'sbytes': "byte[] sb = [n is byte, 'b']; write(sb);", 'byte': "write('c');", 'terminal': 'if (n == 77) { all_is_broken(); }', 'sleep': 'sleep(0);'}
+LIBRARY_SUBSETS = []
+for _mask in range(1 << 5):
+    _names = [k for i, k in enumerate(('int', 'bool', 'string', 'cbytes', 'sbytes')) if _mask >> i & 1]
+    for _extra in ((), ('byte',), ('terminal', 'sleep')):
+        LIBRARY_SUBSETS.append(('const string gs = "wxyz"; const byte[] gt2 = [104, 105];',
+                                'int n = 5; ' + ' '.join(_USES[k] for k in list(_names) + list(_extra))))
 for _g in ('string g0 = "abc"; byte g1 = g0[3];', 'const string g0 = "abc"; byte g1 = g0[3];', 'const string g0 = "abc"; byte g1 = g0[2];',
            'const int[] g0 = [1, 2]; int g1 = g0[2];', 'const int[] g0 = [1, 2]; int g1 = g0[1]; int g2[g1];', 'const int g0 = 3; int g1 = 7 / (g0 - 3);',
            'const int g0 = 3; int g1[g0 - 4];', 'const string g0 = ""; int g1 = g0.length; byte g2 = g0[g1];'):
@@ -516,7 +535,7 @@ def run_shard(desc, seed, tier):
             return src[:i] + g + '\n' + head + '{\n' + stmt + '\n' + src[j + 1:]
         if k == 0:
             # every targeted entry once on a minimal host program, two option sets
-            for g, stmt in ILL_FORMED:
+            for g, stmt in ILL_FORMED + LIBRARY_SUBSETS:
                 src = g + '\nempty @is_you() {\n' + stmt + '\n}\n'
                 for o in ((16, 500, False, False, 50), (24, 300, True, False, 50)):
                     try:
